@@ -274,6 +274,8 @@ def run(rep, wd, tier, seed):
     outs = _pool(_drive, [(seed, p[0], p[-1] + 1) for p in parts])
     from . import isocheck
     outs += isocheck.mark_threaded(isocheck.threaded('harness.c18', '_drive', [(seed, 1000 + 3 * k, 1000 + 3 * k + 3) for k in range(8)], procs=2))
+    # two parameter readers alive at the same time, consumed alternately
+    outs += isocheck.lockstep('harness.c18', '_drive', [(seed, 2000 + 3 * k, 2000 + 3 * k + 3) for k in range(8)], procs=4)
     outs += _pool(_drive_cli, [(seed, k, wd) for k in range(12 if tier == 'thorough' else 6)])
     traces = [t for o in outs for t in o]
     kinds = {}
